@@ -411,3 +411,51 @@ TOK = [
 
 def token_soup(max_tokens=14):
     return st.lists(st.one_of(st.sampled_from(TOK), st.sampled_from(TOK), st.sampled_from(TOK), st.binary(min_size=1, max_size=4)), min_size=1, max_size=max_tokens).map(b"".join)
+
+
+# ---------------------------------------------------------------------------------------------
+# directed family: contexts  >  decoded region  >  raw indicator inside the *encoded* text
+# ---------------------------------------------------------------------------------------------
+RAW_INDICATORS = [b"strlen", b"VirtualAlloc", b"1.2.3.4", b"evil.example.com", b"evil.exe", b"kernel32.dll", b"http://evil.example.com/a", b"mail@example.org", b"C:\\Users\\bob\\evil.dll"]
+ALNUM_KEYWORDS = [b"strlen", b"VirtualAlloc", b"GetProcAddress", b"kernel32"]
+
+
+def _b64_with_keyword(kw: bytes, pad: bytes) -> bytes:
+    """base64 *text* (not an encoding of anything in particular) that contains kw delimited by + and /"""
+    t = b"QUJDREVGR0g" + b"+" + kw + b"/" + pad + b"aGVsbG8gd29ybGQh"
+    t += b"A" * (-len(t) % 4)
+    return t
+
+
+def decoded_wrappers(raw):
+    """strategies producing an expression that some decoder decodes and whose encoded text contains `raw` literally"""
+    return st.one_of(
+        raw.map(lambda r: b'reverse("' + r + b'")'),
+        raw.map(lambda r: b'StrReverse("' + r + b'")'),
+        raw.map(lambda r: b'"' + r + b'" + "x"'),
+        raw.map(lambda r: b"'" + r + b"zz'.replace('zz','')"),
+        raw.map(lambda r: b"unescape('%41" + r.replace(b"'", b"") + b"')"),
+        raw.map(lambda r: b"http://example.com/" + r.replace(b"\\", b"/").replace(b"://", b"/").replace(b":", b"") + b"/x"),
+        st.tuples(st.sampled_from(ALNUM_KEYWORDS), word(0, 6, b"ABCDxyz019")).map(lambda t: _b64_with_keyword(t[0], t[1])),
+        st.tuples(st.sampled_from(ALNUM_KEYWORDS), word(0, 6, b"ABCDxyz019")).map(lambda t: b"atob('" + _b64_with_keyword(t[0], t[1]) + b"')"),
+    )
+
+
+def context_wrap(inner, max_depth=3):
+    one = st.one_of(
+        inner.map(lambda x: b"CreateObject(" + x + b")"),
+        inner.map(lambda x: b"cmd /c " + x + b"\x00"),
+        inner.map(lambda x: b"createobject(foo, " + x + b" , bar)"),
+        inner.map(lambda x: b"cmd.exe /k echo " + x + b"\x00"),
+    )
+    return st.recursive(inner, lambda s: st.one_of(s.map(lambda x: b"CreateObject(" + x + b")"), s.map(lambda x: b"cmd /c " + x + b"\x00"), s.map(lambda x: b"createobject(foo, " + x + b" , bar)")), max_leaves=max_depth)
+
+
+@st.composite
+def nested_docs(draw):
+    raw = st.sampled_from(RAW_INDICATORS)
+    core = cached("decoded_wrappers", lambda: decoded_wrappers(raw))
+    body = draw(cached("context_wrap", lambda: context_wrap(st.tuples(core, st.sampled_from([b"", b" ", b" lorem "]), st.one_of(st.just(b""), core)).map(b"".join))))
+    pre = draw(neutral(0, 3))
+    suf = draw(neutral(0, 2))
+    return (pre + b" " if pre else b"") + body + (b" " + suf if suf else b"")
